@@ -17,14 +17,14 @@ import (
 // http.ReadRequest so ContentLength, the Content-Length header, URL.Path (percent-decoded) and
 // header canonicalisation are what a real server would hand to ServeHTTP.
 type Req struct {
-	Method string      `json:"method"`
-	Segs   []string    `json:"segs,omitempty"` // path segments (unescaped); path = "/" + join(escape(segs), "/")
-	Slash  bool        `json:"slash,omitempty"` // one extra trailing slash
-	Lead   int         `json:"lead,omitempty"`  // extra leading slashes
-	Empty  bool        `json:"empty,omitempty"` // the empty path (URL.Path overwritten after parsing; Dispatch only)
-	RawPath string     `json:"rawpath,omitempty"` // if set, used verbatim as request target instead of Segs
-	Hdr    [][2]string `json:"hdr,omitempty"`
-	Body   string      `json:"body,omitempty"`
+	Method  string      `json:"method"`
+	Segs    []string    `json:"segs,omitempty"`    // path segments (unescaped); path = "/" + join(escape(segs), "/")
+	Slash   bool        `json:"slash,omitempty"`   // one extra trailing slash
+	Lead    int         `json:"lead,omitempty"`    // extra leading slashes
+	Empty   bool        `json:"empty,omitempty"`   // the empty path (URL.Path overwritten after parsing; Dispatch only)
+	RawPath string      `json:"rawpath,omitempty"` // if set, used verbatim as request target instead of Segs
+	Hdr     [][2]string `json:"hdr,omitempty"`
+	Body    string      `json:"body,omitempty"`
 }
 
 // Path returns the decoded path the router will see.
